@@ -536,7 +536,7 @@ func (t *Table) Put(input *types.PutItemInput) (map[string]*types.Item, error) {
 		}, t.getItem(key))
 
 		if !matched {
-			return item, types.NewError("ConditionalCheckFailedException", ErrConditionalRequestFailed.Error(), nil)
+			return item, conditionalCheckError(input.ReturnValuesOnConditionCheckFailure, t.getItem(key))
 		}
 	}
 
@@ -680,7 +680,7 @@ func (t *Table) Delete(input *types.DeleteItemInput) (map[string]*types.Item, er
 		}, t.getItem(key))
 
 		if !matched {
-			return nil, types.NewError("ConditionalCheckFailedException", ErrConditionalRequestFailed.Error(), nil)
+			return nil, conditionalCheckError(input.ReturnValuesOnConditionCheckFailure, t.getItem(key))
 		}
 	}
 
@@ -759,6 +759,20 @@ func (t *Table) IndexesDescription() ([]types.GlobalSecondaryIndexDescription, [
 	}
 
 	return gsi, lsi
+}
+
+// conditionalCheckError builds the error of a refused conditional write; when the request asks for
+// ALL_OLD it carries (a copy of) the item the condition was evaluated on
+func conditionalCheckError(returnValues *string, item map[string]*types.Item) error {
+	checkErr := &types.ConditionalCheckFailedException{
+		MessageText: ErrConditionalRequestFailed.Error(),
+	}
+
+	if returnValues != nil && *returnValues == "ALL_OLD" {
+		checkErr.Item = copyItem(item)
+	}
+
+	return checkErr
 }
 
 func handleConditionalCheckError(input *types.UpdateItemInput, checkErr *types.ConditionalCheckFailedException, item map[string]*types.Item) {
